@@ -215,7 +215,7 @@ def case_hash(obj) -> str:
 # worker pool with per-case time-out
 
 
-class Hang(Exception):
+class Hang(BaseException):  # not an Exception: implementation runners must not swallow it
     pass
 
 
